@@ -20,6 +20,13 @@ def main():
     from nucs.constants import EVENT_MASK_MIN_MAX, MAX, MIN, PROP_CONSISTENCY, PROP_INCONSISTENCY
     from sim import nucsio
 
+    if spec.get("alloc") is not None and os.environ.get("NUMBA_DISABLE_JIT"):
+        # never-written memory comes back with the contents the simulator chose for this run (seams.dirty_allocator)
+        from sim import seams
+
+        seams.install_allocator()
+        a = spec["alloc"]
+        seams._Alloc.pattern = tuple(a) if isinstance(a, list) else a
     models = spec["models"]
     problems = {}  # model index -> reused Problem object
     solvers = {}  # solver name -> (solver, generator)
